@@ -1016,7 +1016,7 @@ RULES = [
     ("C14.TEMPOROLE", 2, rule_temporole),
     ("C14.TABLES", 40, common.shared("c10", "rule_tables", "C14.TABLES")),
     ("C14.EXTNAMES", 100, rule_extnames),
-    ("C14.FORMATSAFE", 15, rule_formatsafe),
+    ("C14.FORMATSAFE", 2, rule_formatsafe),
     ("C14.NONETRUTH", 10, rule_nonetruth),
     ("C14.BEATGUARD", 6, rule_beatguard),
     ("C14.GRAMMAR", 3, common.shared("c10", "rule_grammar", "C14.GRAMMAR")),
